@@ -70,7 +70,11 @@ def real_select(ctx, path_dir, fields, sdate_ms, thresh):
     from pygac.reader import NoTLEData
     r = GACKLMReader(tle_dir=path_dir, tle_name="TLE_%(satname)s.txt", tle_thresh=thresh)
     r.spacecraft_name = "sat"
-    r._times_as_np_datetime64 = np.array([sdate_ms], dtype="datetime64[ms]")
+    # the pass start is the FIRST line's time; later lines may carry any (also earlier, unrepaired) time stamps
+    import random as _r
+    g = _r.Random(sdate_ms)
+    others = [sdate_ms + g.choice([500, 1000, -86400000 * 400, 86400000 * 300, -3600000, 7200000]) for _ in range(g.choice([0, 0, 1, 3]))]
+    r._times_as_np_datetime64 = np.array([sdate_ms] + others, dtype="datetime64[ms]")
     try:
         l1, l2 = r.get_tle_lines()
     except NoTLEData:
